@@ -61,6 +61,7 @@ type ModuleCfg struct {
 	IgnoreCall []string             `json:"ignorecalls"` // statement-level calls to drop (logging)
 	Consts     map[string]string    `json:"consts"`      // extra named constants: name -> "value:type"
 	Structures []StructureCfg       `json:"structures"`
+	Types      map[string]string    `json:"types"` // named-type aliases: Go type name (without package) -> builtin type
 }
 
 type Config struct {
@@ -117,6 +118,9 @@ func parseTy(s string, m *modCtx) Ty {
 	}
 	if e, ok := m.enumTypes[s]; ok {
 		return e
+	}
+	if a, ok := m.cfg.Types[s]; ok && a != s {
+		return parseTy(a, m)
 	}
 	if r, ok := m.cfg.Records[s]; ok {
 		return Ty{Kind: "record", Name: r.Coq}
